@@ -2,7 +2,7 @@
 from vmon.core import rng_for
 from vmon import real
 
-TASKS = ['c_sleep', 'python', 'ignore_term', 'in_handler', 'catch_base']
+TASKS = ['c_sleep', 'python', 'ignore_term', 'in_handler', 'catch_base', 'translate']
 
 
 def plan(tier, seed):
@@ -22,6 +22,15 @@ def plan(tier, seed):
         specs.append({'lane': 'real', 'timeout': 120, 'params': {
             'nproc': nproc, 'pool_hard': ph, 'job_hard': jh, 'eff_limit': eff, 'task': task,
             'dur': dur, 'over': bool(eff and factor > 1), 'siblings': i % 2 == 0, 'probes': 3}})
+    # jobs waiting in the queue behind the job that runs out of time, on workers
+    # whose error path is warm; the task turns whatever interrupts it into an
+    # exception of its own (or just sleeps)
+    for k, task in enumerate(('translate', 'c_sleep') if tier == 'quick' else
+                             ('translate', 'c_sleep', 'translate', 'in_handler', 'translate')):
+        specs.append({'lane': 'real', 'timeout': 120, 'params': {
+            'nproc': 1 + (k // 2) % 2, 'pool_hard': None, 'job_hard': 1.0, 'eff_limit': 1.0,
+            'task': task, 'dur': 9.0, 'over': True, 'siblings': False, 'probes': 3,
+            'warm': True, 'queued_behind': 2}})
     # finished in time, slow result callback: the limit's instant passes while
     # the callback runs and the worker is busy with the next job
     for nproc in (1, 2) if tier == 'quick' else (1, 1, 2, 3):
@@ -40,7 +49,8 @@ def run_spec(spec, rec):
     rec.case()
     rec.count('real:scenarios')
     attrs = {'lane': 'real', 'task': p['task'], 'over_limit': p['over'], 'nproc': p['nproc'],
-             'siblings': p['siblings'], 'slow_callback': bool(p.get('slow_cb'))}
+             'siblings': p['siblings'], 'slow_callback': bool(p.get('slow_cb')),
+             'queued_behind': bool(p.get('queued_behind'))}
     if r['status'] == 'died':
         rec.violation('host_process_died', attrs, rc=r['rc'], stderr=r['stderr'][-3000:], params=p)
         return
@@ -92,6 +102,11 @@ def run_spec(spec, rec):
         if not good:
             rec.violation('map_or_imap_job_timed_out_or_broken', dict(attrs, job_kind=kind),
                           got=got, params=p)
+    if p.get('queued_behind'):
+        rec.count('real:jobs_queued_behind_timed_out_job', p['queued_behind'])
+        if any(o[0] != 'ok' for o in obs.get('queued', [['missing']])):
+            rec.violation('job_queued_behind_timed_out_job_not_served', attrs,
+                          queued=obs.get('queued'), params=p)
     bad = [o for o in obs.get('probes', []) if o[0] != 'ok']
     if bad:
         rec.violation('later_job_not_served', attrs, probes=obs.get('probes'), params=p)
